@@ -4,6 +4,9 @@ var ndHarnesses = map[string]func(){
 	"Harness_C05_L1": Harness_C05_L1,
 	"Harness_C05_L2": Harness_C05_L2,
 	"Harness_C06":    Harness_C06,
+	"Harness_C04_K2": Harness_C04_K2,
+	"Harness_C04_K3": Harness_C04_K3,
+	"Harness_C04_K4": Harness_C04_K4,
 	"Harness_C10_Binding": Harness_C10_Binding,
 	"Harness_C06_Export": Harness_C06_Export,
 }
